@@ -5,6 +5,8 @@ import Wax.Proofs.DepthFlat
 import Wax.Proofs.Escape
 import Wax.Generated
 import Wax.RuleS
+import Wax.Proofs.RuleSpecEquiv
+import Wax.Proofs.DepthTree
 /-! Executable fragment tests of the query theorems (`exhaustive_sound_partial`,
 `depth_sound_partial`, `text_exact`), used as classifiers by the checks. -/
 namespace Wax
@@ -41,7 +43,9 @@ def cmdF10 (t : Tok) : String :=
   let isSp : Tok → Bool := fun x => match x with | .sep _ => true | _ => false
   let own : List String :=
     if !ts.all (fun x => isRun x || isSp x) then
-      (if ts.all (fun x => match x with | .alt .. | .rep .. | .cat .. => false | _ => true) then ["K-DEPTH-TREE"] else ["K-DEPTH-BRANCH"])
+      (if ts.all (fun x => match x with | .alt .. | .rep .. | .cat .. => false | _ => true) then
+        (if flatTreeOk ts then [] else ["K-DEPTH-TREE"])      -- `depth_sound_tree_partial`
+       else ["K-DEPTH-BRANCH"])
     else
       let runs := splitRuns ts
       let n := runs.length
@@ -77,6 +81,11 @@ mutual
     | t :: ts => repBranchTerminal t || repBranchTerminalL ts
 end
 
-def cmdF06 (t : Tok) : String := showFrag (if repBranchTerminal t then ["K-RULE-REP-NESTED"] else [])
+/-- the fragment of `build_eq_wfSpec_partial` (the structural verdict EQUALS the declarative rules):
+    outside `repsSafe` the listed finding K-RULE-REP-NESTED, outside `onceOpen` the listed finding
+    K-RULE-ONCE-REP (a once-only repetition whose body starts and ends with a boundary is rejected) -/
+def cmdF06 (t : Tok) : String :=
+  showFrag ((if AdjN.repsSafe Tok.isBoundaryT t then [] else ["K-RULE-REP-NESTED"]) ++
+            (if AdjN.onceOpen Tok.isBoundaryT t then [] else ["K-RULE-ONCE-REP"]))
 
 end Wax
